@@ -44,6 +44,7 @@ func main() {
 	verif := flag.String("verif", "/verif", "verification directory (evidence, known findings)")
 	replay := flag.String("replay", "", "replay file: re-run the property it names and print its findings")
 	list := flag.Bool("list", false, "list properties and rules")
+	controls := flag.String("controls", "/verif/checker/controls", "positive-control module")
 	flag.Parse()
 
 	if *list {
@@ -135,7 +136,7 @@ func main() {
 				runRule(ru, p, r)
 			}
 		}
-		runControls(spec, r, *verif)
+		runControls(spec, r, *controls)
 		if spec.ID != "" && *tier == "thorough" {
 			runThoroughExtras(spec, progs, cfgs, r, abs)
 		}
